@@ -11,28 +11,80 @@ A64M = "aarch64-apple-darwin"       # macOS: long entry form, write alias, jit w
 WIN = "x86_64-pc-windows-msvc"      # Windows: VirtualAlloc/VirtualProtect/FlushInstructionCache paths
 ARM = "armv7-unknown-linux-gnueabihf"
 
+# thorough tier: every target in both profiles (dev and release: debug assertions and overflow checks off)
+ALL2 = list(extract.ALL_TARGETS) + [t + "@release" for t in extract.ALL_TARGETS]
+
 TARGETS = {
     # property -> (quick targets, thorough targets)
-    "C01": ([H, A64L, ARM, HR, A64M, WIN], list(extract.ALL_TARGETS) + [HR]),
-    "C16": ([ARM], [ARM, "thumbv7neon-unknown-linux-gnueabihf"]),
-    "C13": ([H, A64L, ARM, HR, A64M], list(extract.ALL_TARGETS) + [HR]),
-    "C02": ([H, A64L, ARM, HR, A64M, WIN], list(extract.ALL_TARGETS) + [HR]),
-    "C03": ([H, A64L, ARM, HR, A64M, WIN], list(extract.ALL_TARGETS) + [HR]),
-    "C12": ([H, A64L, HR, A64M, WIN], list(extract.ALL_TARGETS) + [HR]),
-    "C17": ([H, A64L, HR, A64M, WIN], list(extract.ALL_TARGETS) + [HR]),
-    "C11": ([H, A64L, HR, A64M, WIN], [t for t in extract.ALL_TARGETS if "arm" not in t.split("-")[0] and "thumb" not in t] + [HR]),
-    "C04": ([H, HR], list(extract.ALL_TARGETS) + [HR]),
-    "C05": ([H, "x86_64-pc-windows-msvc", HR], list(extract.ALL_TARGETS) + [HR]),
+    "C01": ([H, A64L, ARM, HR, A64M, WIN], ALL2),
+    "C16": ([ARM], [ARM, "thumbv7neon-unknown-linux-gnueabihf", ARM + "@release", "thumbv7neon-unknown-linux-gnueabihf@release"]),
+    "C13": ([H, A64L, ARM, HR, A64M], ALL2),
+    "C02": ([H, A64L, ARM, HR, A64M, WIN], ALL2),
+    "C03": ([H, A64L, ARM, HR, A64M, WIN], ALL2),
+    "C12": ([H, A64L, HR, A64M, WIN], ALL2),
+    "C17": ([H, A64L, HR, A64M, WIN], ALL2),
+    "C11": ([H, A64L, HR, A64M, WIN], [t for t in ALL2 if "arm" not in t.split("-")[0] and "thumb" not in t]),
+    "C04": ([H, HR], ALL2),
+    "C05": ([H, "x86_64-pc-windows-msvc", HR], ALL2),
     "C06": ([H, HR], [H, HR]),
     "C07": ([H, HR], [H, HR]),
     "C08": ([H, HR], [H, HR]),
     "C09": ([H, HR], [H, HR]),
-    "C14": ([H, A64L], [H, A64L, ARM, A64M]),
-    "C10": ([H, A64L, ARM, HR, A64M], list(extract.ALL_TARGETS) + [HR]),
-    "C15": ([A64L, "aarch64-apple-darwin"], [A64L, "aarch64-apple-darwin", "aarch64-pc-windows-msvc"]),
+    "C14": ([H, A64L], [H, A64L, ARM, A64M, HR, A64L + "@release"]),
+    "C10": ([H, A64L, ARM, HR, A64M], ALL2),
+    "C15": ([A64L, A64M], [A64L, A64M, "aarch64-pc-windows-msvc", A64L + "@release", A64M + "@release", "aarch64-pc-windows-msvc@release"]),
 }
 
 EXPLAIN = {}
+
+
+_W = {}
+
+
+def _worker(target):
+    """Runs the property's rules on one target in a forked child; returns the picklable part of its Check."""
+    w = _W
+    ck = Check(w["pid"], w["tier"], w["seed"])
+    ck.ws = w["ws"]
+    try:
+        w["mod"].run(ck, [TargetModel(w["facts"][target])], w["tier"], *([w["ws"]] if w["needs_ws"] else []))
+    except extract.ExtractError as e:
+        ck.ob("infra", "extraction", target, False, "fact extraction failed: %s" % str(e)[:500])
+    except Exception as e:
+        tb = traceback.format_exc()
+        ck.infos.append("worker %s: %s" % (target, tb[-1500:]))
+        ck.ob("infra", "analysis-error", target, False, "analysis raised %s: %s (failing closed)" % (type(e).__name__, str(e)[:500]))
+    def plain(v):
+        return dict((k, (x if isinstance(x, (str, int, float, bool, type(None))) else str(x))) for k, x in v.items())
+    return {"obligations": [plain(o) for o in ck.obligations], "violations": [plain(v) for v in ck.violations],
+            "known_hits": [(k, plain(r)) for k, r in ck.known_hits], "infos": list(ck.infos), "analysed": list(ck.analysed),
+            "assumptions": list(ck.assumptions), "trusted": list(ck.trusted), "decided": ck.decided, "not_decided": ck.not_decided}
+
+
+def _merge(ck, part):
+    seen = {(o["key"], o["target"], o["detail"]) for o in ck.obligations if o["target"] in ("*", "controls")}
+    for o in part["obligations"]:
+        if o["target"] in ("*", "controls"):
+            k = (o["key"], o["target"], o["detail"])
+            if k in seen:
+                continue
+            seen.add(k)
+        ck.obligations.append(o)
+    vseen = {(v["key"], v["target"]) for v in ck.violations}
+    for v in part["violations"]:
+        if (v["key"], v["target"]) not in vseen:
+            ck.violations.append(v)
+    ck.known_hits.extend(part["known_hits"])
+    ck.infos.extend(i for i in part["infos"] if i not in ck.infos)
+    for a in part["analysed"]:
+        a = tuple(a)
+        if a not in ck.analysed:
+            ck.analysed.append(a)
+    for fld in ("assumptions", "trusted"):
+        cur = getattr(ck, fld)
+        cur.extend(x for x in part[fld] if x not in cur)
+    ck.decided = ck.decided or part["decided"]
+    ck.not_decided = ck.not_decided or part["not_decided"]
 
 
 def main(argv):
@@ -54,9 +106,26 @@ def main(argv):
     try:
         with extract.Workspace() as ws:
             facts = ws.lib_facts_many(targets)
-            models = [TargetModel(facts[t]) for t in targets]
             ck.ws = ws
-            mod.run(ck, models, tier, *( [ws] if getattr(mod, "NEEDS_WS", False) else [] ))
+            needs_ws = getattr(mod, "NEEDS_WS", False)
+            if getattr(mod, "PER_TARGET", False) and len(targets) > 1 and not os.environ.get("VERIF_SERIAL"):
+                # the rules of this property treat each target configuration on its own: one forked worker per target, results
+                # merged in target order (same obligations as the serial run, only faster)
+                if getattr(mod, "USES_CONTROLS", False):
+                    from .rules import scans
+                    try:
+                        scans.control_facts(ws)          # built once here, inherited by the workers
+                    except Exception:
+                        pass
+                _W.update(mod=mod, facts=facts, ws=ws, pid=pid, tier=tier, seed=seed, needs_ws=needs_ws)
+                import multiprocessing
+                with multiprocessing.get_context("fork").Pool(min(len(targets), os.cpu_count() or 4)) as pool:
+                    parts = pool.map(_worker, targets)
+                for part in parts:
+                    _merge(ck, part)
+            else:
+                models = [TargetModel(facts[t]) for t in targets]
+                mod.run(ck, models, tier, *([ws] if needs_ws else []))
     except extract.ExtractError as e:
         print("extraction failed: %s" % e)
         ck.ob("infra", "extraction", "*", False, "fact extraction failed: %s" % str(e)[:500])
